@@ -77,6 +77,26 @@ Fixpoint pick (mt : option mtp) (accept : list mtp) : option mtp :=
 Definition media_type (accept : list mtp) (dflt : mtp) : mtp :=
   match pick None accept with Some m => m | None => dflt end.
 
+(* ---- SendToDID (outbound.go): the connection record of (myDID, theirDID) is looked up, or created, before the
+   destination is built; what it says replaces what the resolved DID document says ---- *)
+Record connrec := mkconn { cn_profiles : list mtp; cn_peer_initial : bool }.
+(* getOrCreateConnection: the record found, else a new one carrying the dispatcher's default profiles for a DIDComm v1
+   message and none for a v2 message (there they go into the record's endpoint, which SendToDID does not read) *)
+Definition conn_for (found : option connrec) (defaults : list mtp) (v2msg : bool) : connrec :=
+  match found with Some r => r | None => mkconn (if v2msg then [] else defaults) false end.
+(* the accept list mediaTypeProfile sees: a DIDComm V2 endpoint's own accept list first; else the record's profiles,
+   when it has any, INSTEAD of the DID document's *)
+Definition todid_accept (ep_accept doc_accept : list mtp) (r : connrec) : list mtp :=
+  match ep_accept with
+  | _ :: _ => ep_accept
+  | [] => match cn_profiles r with _ :: _ => cn_profiles r | [] => doc_accept end
+  end.
+(* the profiles for which SendToDID insists on the sender key even when the own peer DID travels with the message *)
+Definition v1_only (m : mtp) : bool :=
+  match m with M_V1Plain | M_V1Enc | M_RFC19 | M_AIP2RFC19 => true | _ => false end.
+(* authcrypt with the first key of the own document, unless the record says the own peer DID is being shared *)
+Definition todid_auth (r : connrec) (selected : mtp) : bool := negb (cn_peer_initial r && negb (v1_only selected)).
+
 (* createForwardMessage's forward type and getCTYAndPacker's packer family *)
 Definition family (m : mtp) : option profile :=
   match m with
